@@ -1317,6 +1317,47 @@ theorem no_simulation_past_terminal_as_extracted {m : Mdl} (hm : m.pomcp = true 
   | false => left; rfl
   | true => right; rw [hm hp]; exact hx hp
 
+/-! ### The returned action -/
+
+theorem argmaxV_lt (f : Nat → Rat) : ∀ n, 0 < n → argmaxV f n < n := by
+  intro n
+  induction n with
+  | zero => intro h; omega
+  | succ n ih =>
+    intro _
+    simp only [argmaxV]
+    split
+    · omega
+    · by_cases hn : n = 0
+      · subst hn; simp [argmaxV]
+      · have := ih (by omega); omega
+
+theorem argmaxV_max (f : Nat → Rat) : ∀ n a, a < n → f a ≤ f (argmaxV f n) := by
+  intro n
+  induction n with
+  | zero => intro a h; omega
+  | succ n ih =>
+    intro a ha
+    simp only [argmaxV]
+    by_cases han : a = n
+    · subst han
+      split
+      · exact le_refl _
+      · rename_i h; exact not_lt.mp h
+    · have := ih a (by omega)
+      split
+      · rename_i h; linarith
+      · exact this
+
+/-- **returned_action_valid.**  The action returned by a public call (`findBestA` over the root, or 0 for
+    horizon 0) is one of the root's actions whenever the root has any, and no root action has a larger estimate. -/
+theorem returned_action_valid (t : Tree) (H : Nat) (hA : 0 < t.nA []) :
+    t.bestA H < t.nA [] ∧ (0 < H → ∀ a, a < t.nA [] → t.aV [] a ≤ t.aV [] (t.bestA H)) := by
+  unfold Tree.bestA
+  split
+  · exact ⟨hA, fun h => by omega⟩
+  · exact ⟨argmaxV_lt _ _ hA, fun _ a ha => argmaxV_max _ _ a ha⟩
+
 /-! ### rPOMCP (max-of-belief): horizon and counts -/
 
 namespace R
